@@ -177,7 +177,7 @@ def oracle(ctx, stream, case_lines, rep):
 
 def run(ctx):
     have = {k.get("fingerprint") for k in ctx.known}
-    ctx.known += [k for k in LOCAL_KNOWN if k["fingerprint"] not in have]
+    # the committed known-findings.json is the only list of known findings (never extended at run time)
     ctx.rule = ("cases = random histories (2-30 writes) of Services (ClusterIP/headless/ExternalName), EndpointSlices (1-2 per "
                 "service, address moves), Pods (phases, readiness, IP assignment/reuse, label edits, deletion) and Nodes over a "
                 "small universe, in one interleaving, with hold/release windows in which the informer stores run ahead of the "
@@ -214,7 +214,7 @@ def run(ctx):
 def replay(ctx, path):
     import json
     have = {k.get("fingerprint") for k in ctx.known}
-    ctx.known += [k for k in LOCAL_KNOWN if k["fingerprint"] not in have]
+    # the committed known-findings.json is the only list of known findings (never extended at run time)
     obj = json.load(open(path))
     rep = obj.get("replay", {})
     ops = rep.get("ops") or (rep.get("extra") or {}).get("ops")
